@@ -520,6 +520,62 @@ Proof.
   cbn [app]. eauto.
 Qed.
 
+(* ---- only abandoned acceptors are waiting: the next SYN sweeps them all and is cached ---- *)
+Lemma try_next_accq_nil s : accq s = [] -> try_next_acceptor s = (s, None).
+Proof.
+  unfold accq, try_next_acceptor. destruct (d_next_acc s); cbn [app]; [discriminate|].
+  intros ->. reflexivity.
+Qed.
+
+Lemma on_syn_loop_all_dead y : forall dead s fuel,
+  accq s = dead -> (forall x, In x dead -> In x (d_dead_acceptors s)) ->
+  streams_full s = false -> has_stream s (syn_key y) = false -> (length dead <= fuel)%nat ->
+  exists s', on_syn_loop fuel s y = (s', false, []) /\ accq s' = [] /\ same_core s s'.
+Proof.
+  induction dead as [|x dead IH]; intros s fuel Hq Hd Hf Hh Hfuel.
+  - destruct fuel as [|fuel]; cbn [on_syn_loop].
+    + exists s. auto using same_core_refl.
+    + rewrite (try_next_accq_nil s Hq). exists s. auto using same_core_refl.
+  - destruct fuel as [|fuel]; [cbn in Hfuel; lia|]. cbn [on_syn_loop].
+    destruct (try_next_accq _ _ _ Hq) as (s1 & -> & Hq1 & Hcore).
+    assert (Hx : In x (d_dead_acceptors s1)).
+    { destruct Hcore as (_ & _ & -> & _). apply Hd. left; reflexivity. }
+    assert (F1 : streams_full s1 = false) by (rewrite (same_core_full _ _ Hcore); exact Hf).
+    assert (F2 : has_stream s1 (syn_key y) = false) by (rewrite (same_core_has _ _ _ Hcore); exact Hh).
+    rewrite (match_syn_dead s1 y x F1 F2 Hx).
+    destruct (next_random_core s1) as [Hcore2 Hq2].
+    assert (Hcore3 : same_core s (fst (next_random s1))) by (eapply same_core_trans; eauto).
+    destruct (IH (fst (next_random s1)) fuel) as (s' & -> & A & B).
+    + congruence.
+    + intros z Hz. destruct Hcore3 as (_ & _ & -> & _). apply Hd. right; exact Hz.
+    + rewrite (same_core_full _ _ Hcore3). exact Hf.
+    + rewrite (same_core_has _ _ _ Hcore3). exact Hh.
+    + cbn in Hfuel. lia.
+    + exists s'. split; [reflexivity|]. split; [exact A|]. eapply same_core_trans; eauto.
+Qed.
+
+(* every waiting acceptor was abandoned: the SYN sweeps them all out of the queue in this one
+   step, is itself cached for the next accept call, and nothing is refused *)
+Theorem dead_acceptors_swept_by_next_syn s addr m s' e :
+  d_inv s -> d_syns s = [] -> dm_type m = ST_SYN ->
+  find_stream s {| k_addr := addr; k_conn := dm_conn m |} = None ->
+  (forall x, In x (accq s) -> In x (d_dead_acceptors s)) ->
+  streams_full s = false -> has_stream s (syn_key (syn_of addr m)) = false ->
+  dstep s (DoRunOnce [] (ArmRecv addr (Some m))) = (s', e) ->
+  e = [] /\ d_syns s' = [syn_of addr m] /\ accq s' = [] /\ d_streams s' = d_streams s.
+Proof.
+  intros Hinv Hs Ht Hfind Hd Hf Hh H.
+  rewrite dstep_run_once_eq, (cleanup_no_syns s Hs) in H. cbn [fold_left arm_step] in H.
+  unfold on_recv in H. rewrite Hfind, Ht in H. fold (syn_of addr m) in H.
+  assert (Hlen : (length (accq s) <= length (d_chan s) + 2)%nat).
+  { unfold accq. rewrite app_length. destruct (d_next_acc s); cbn [length]; lia. }
+  destruct (on_syn_loop_all_dead (syn_of addr m) (accq s) s _ eq_refl Hd Hf Hh Hlen) as (s1 & Hl & A & B).
+  unfold on_syn in H. rewrite Hs, Hl in H.
+  destruct B as (B1 & B2 & B3 & B4). rewrite B4, Hs in H.
+  cbn [length app] in H. change (Z.of_nat 0 <? ACCEPT_QUEUE_MAX_SYNS) with true in H.
+  injection H as <- <-. dsimpl. unfold accq in *. dsimpl. auto.
+Qed.
+
 (* ---- the channel position of an abandoned accept call is released only by the sweep ---- *)
 (* An abandoned accept call does NOT give its channel position back at once: it stays queued
    until the next SYN (or cached SYN) sweeps it.  32 accept calls are queued and abandoned; the
